@@ -97,11 +97,11 @@ def cfg_bounds(cfg, h, w):
     return (mnb or 1, mxb or h * w, mns or 1, mxs or h * w)
 
 
-def invariant(blocks, h, w, cfg):
-    """None if valid, else a reason."""
+def invariant(blocks, h, w, cfg, universe=None):
+    """None if valid, else a reason.  universe: the cells the caller's initial_blocks cover (default: the whole board)."""
     mnb, mxb, mns, mxs = cfg_bounds(cfg, h, w)
     cells = [tuple(c) for b in blocks for c in b]
-    if sorted(cells) != [(y, x) for y in range(h) for x in range(w)]:
+    if sorted(cells) != (sorted(universe) if universe is not None else [(y, x) for y in range(h) for x in range(w)]):
         return "not-a-partition"
     if any(len(b) == 0 for b in blocks):
         return "empty-block"
@@ -258,6 +258,53 @@ def explore_config(part, h, w, cfg, seeds_from_all_valid, state_cap):
         restore_source(seg, saved)
 
 
+def explore_partial(part, h, w, holes, cfg, state_cap):
+    """The caller's initial_blocks leave some cells of the board uncovered (the builder keeps them out of every block):
+    from every valid partition of the covered cells, BFS over the proposed updates; every value must again be a
+    partition of exactly the covered cells into connected blocks within the bounds."""
+    from cspuz.generator import segmentation as seg
+
+    saved = save_source(seg)
+    case = {"board": [h, w], "config": list(cfg), "uncovered": [list(c) for c in holes]}
+    covered = [(y, x) for y in range(h) for x in range(w) if (y, x) not in set(holes)]
+    idx = {c: k for k, c in enumerate(covered)}
+    edges = [(idx[a], idx[b]) for a in covered for b in ((a[0] + 1, a[1]), (a[0], a[1] + 1)) if b in idx]
+    try:
+        seeds = {}
+        for p in graphref.connected_partitions(len(covered), edges):
+            blocks = [[covered[c] for c in blk] for blk in p]
+            if invariant(blocks, h, w, cfg, covered) is None:
+                seeds[canon(blocks)] = blocks
+        if not seeds:
+            part.count("configs_without_valid_partition")
+            return
+        b = make_builder(h, w, cfg, initial_blocks=next(iter(seeds.values())))
+        seen = dict(seeds)
+        frontier = list(seeds.values())
+        depth = 0
+        while frontier and len(seen) <= state_cap and depth < 3:
+            depth += 1
+            nxt_frontier = []
+            for blocks in frontier:
+                succ = successors(part, b, blocks, h, w, cfg, case)
+                for k, (val, upd) in succ.items():
+                    why = invariant(val, h, w, cfg, covered)
+                    if why:
+                        part.violation("update(partial-cover):" + why, dict(case, state=[list(x) for x in blocks], update=upd), {"result": val})
+                    elif k not in seen:
+                        seen[k] = val
+                        nxt_frontier.append(val)
+            frontier = nxt_frontier
+        for k in seen:
+            part.add("states", (h, w, cfg, tuple(holes), k))
+        part.count("configs_explored")
+    finally:
+        restore_source(seg, saved)
+
+
+PARTIAL = [(2, 3, ((0, 2),)), (3, 3, ((1, 1),)), (3, 4, ((0, 3), (1, 3), (2, 3))), (2, 4, ((0, 1), (1, 3))), (3, 3, ((0, 0), (2, 2))), (1, 5, ((0, 2),))]
+
+
 def long_walk(part, h, w, cfg, steps, stride, start="initial"):
     """Deterministic long history on a board too large for BFS: starting from initial(), repeatedly apply one of the
     proposed updates (picked by a fixed stride), checking the invariant and immutability at every step."""
@@ -345,6 +392,10 @@ def configs(h, w, tier):
 
 
 def worker(shard, part):
+    if shard[0] == "partial":
+        _, h, w, holes, cfg = shard
+        explore_partial(part, h, w, holes, cfg, 4000)
+        return
     if shard[0] == "walk":
         _, h, w, cfg, steps, stride = shard[:6]
         long_walk(part, h, w, cfg, steps, stride, shard[6] if len(shard) > 6 else "initial")
@@ -377,6 +428,9 @@ def main(tier, seed, only=None):
             ([] if tier == "quick" else [(1, 300, "singles"), (4, 130, "snake-halves"), (20, 20, "singles"), (70, 2, "snake-halves")]):
         for stride in (1, 5):
             shards.append(("walk", h, w, (None, None, None, None), 10 if tier == "quick" else 60, stride, start))
+    for (h, w, holes) in PARTIAL:
+        for cfg in ((None, None, None, None), (None, None, 1, 3), (2, 4, None, None), (None, 3, 2, None)):
+            shards.append(("partial", h, w, holes, cfg))
     run = harness.Run(
         PID, tier, seed, "model_checking",
         "boards with h*w <= %d (all shapes incl. 1xN); configurations: all (min_blocks, max_blocks, min_size, max_size) over {None,1,2,3,h*w} "
@@ -385,12 +439,13 @@ def main(tier, seed, only=None):
         "over updates proposed by the real candidates(), the two seeds of every split_block call swept over all n^2 pairs, every state "
         "expanded in two presentations (canonical, reversed).  Invariant per state: partition, connected blocks, count and sizes in bounds; "
         "per transition: source value and earlier results unchanged.  Scale family: deterministic walks of 150 (thorough 400) steps on 5x5, 4x8, 10x10 "
-        "(thorough 17x17, 1x40) boards under 6 configurations, judging every proposed update of every visited state; also boards 2x70 / 3x66 and partitions with 272 / 300 single-cell rooms given as initial_blocks." % (maxcells, " (boards <= 4 cells)" if tier == "quick" else ""),
+        "(thorough 17x17, 1x40) boards under 6 configurations, judging every proposed update of every visited state; also boards 2x70 / 3x66 and partitions with 272 / 300 single-cell rooms given as initial_blocks.  Partial cover: initial_blocks that leave cells of the board uncovered (6 hole patterns x 4 configurations), BFS of depth 3 from every valid partition of the covered cells; every value must partition exactly the covered cells." % (maxcells, " (boards <= 4 cells)" if tier == "quick" else ""),
     )
     run.assumptions = [
         "canonical state = sorted tuple of sorted blocks; sound because the set of proposed successor partitions is independent of block / cell "
         "order once all seed pairs are enumerated (each state is nevertheless expanded in two presentations)",
         "allow_unmet_constraints_first=True is outside the property (it promises nothing about the first value)",
+        "initial_blocks covering only part of the board (the builder supports it: uncovered cells belong to no block) are judged against the covered cells",
     ]
     par.run_shards(run, worker, shards, seed)
     cov = {
